@@ -239,65 +239,7 @@ func runC01(c *Ctx) {
 			c.ats(append(append([]ssa.Instruction{}, ctxCalls...), sanCalls...))...)
 	})
 
-	c.rule("C01.G3", "handleHeadersMsg: areHeadersConnected(msg.Headers)=true guards every store write, rollback and batch append; areHeadersConnected returns true only if no PrevBlock mismatch was seen", func() {
-		fn := c.fn(fnHandleHeaders)
-		ahc := c.funcObj("neutrino", "areHeadersConnected")
-		calls := find(fn, callTo(ahc))
-		roll := c.method("neutrino", "blockManager", "rollBackToHeight")
-		effects := find(fn, anyOf(appendsOf(hdrNamed()), callTo(bhsWrite()), callTo(roll)))
-		c.guarded(fn, boolIs("areHeadersConnected(msg.Headers)", calls, 0, true), 1, "batch append / WriteHeaders / rollBackToHeight", effects, 4, gDominate)
-
-		f2 := c.fn("neutrino.areHeadersConnected")
-		prevBlock := c.field(pWire, "BlockHeader", "PrevBlock")
-		for _, x := range find(f2, binops(eqOps, loadsField(prevBlock), anyVal)) {
-			c.fullRange(f2, ir.LoopHeaderOf(x.Block()), "the link-checking loop", func(v ssa.Value) bool { return v == ssa.Value(f2.Params[0]) }, 0, boolSuccess)
-		}
-		cmps := find(f2, binops(eqOps, loadsField(prevBlock), anyVal))
-		var retTrue []ssa.Instruction
-		for _, in := range find(f2, isExit) {
-			r := in.(*ssa.Return)
-			if b, ok := ir.ConstBool(ir.RetVal(r, 0)); !ok || b {
-				retTrue = append(retTrue, in)
-			}
-		}
-		c.guarded(f2, equalIs("blockHeader.PrevBlock vs lastHeader", cmps, true), 1, "return true", retTrue, 1, gFailEdge)
-		// every header of the message is linked to its predecessor: from each
-		// element of the slice the PrevBlock comparison is reached within the
-		// iteration; the only exemption is the very first header (lastHeader is
-		// still the zero hash)
-		var starts []start
-		ir.Instrs(f2, func(in ssa.Instruction) {
-			ia, ok := in.(*ssa.IndexAddr)
-			if ok && ir.Strip(ia.X) == ssa.Value(f2.Params[0]) {
-				starts = append(starts, afterInstr(c, in))
-			}
-		})
-		firstCut := ir.Cut{}
-		ir.Instrs(f2, func(in ssa.Instruction) {
-			b, ok := in.(*ssa.BinOp)
-			if !ok || (b.Op != token.EQL && b.Op != token.NEQ) || loadsField(prevBlock)(b.X) || loadsField(prevBlock)(b.Y) {
-				return
-			}
-			// comparison of two hash values neither of which is a PrevBlock:
-			// lastHeader == emptyHash (first header of the message)
-			hashT := c.P.Named(pChainhash, "Hash")
-			if hashT == nil || !types.Identical(b.X.Type(), hashT) || !types.Identical(b.Y.Type(), hashT) {
-				return
-			}
-			for _, br := range ir.EqBranches(b) {
-				firstCut[br.Edge()] = true
-			}
-		})
-		isCmp := func(in ssa.Instruction) bool {
-			for _, x := range cmps {
-				if x == in {
-					return true
-				}
-			}
-			return false
-		}
-		c.mustFollowIter(f2, "each header of the message", starts, isCmp, "blockHeader.PrevBlock != lastHeader comparison", firstCut, 1)
-	})
+	c.rule("C01.G3", headersLinkedDoc, func() { c.headersLinked() })
 
 	c.rule("C01.G4", "handleHeadersMsg: on a checkpoint-height header whose hash differs from the checkpoint the batch is not written; rollBackToHeight and peer.Disconnect follow", func() {
 		fn := c.fn(fnHandleHeaders)
@@ -361,6 +303,20 @@ func runC01(c *Ctx) {
 			okAdv = valIsCallTo(findNext)(st.(*ssa.Store).Val)
 		}
 		c.verdict(okAdv, c.nm(fn)+" | nextCheckpoint advanced by findNextHeaderCheckpoint", c.P.Pos(fn.Pos()), "b.nextCheckpoint = b.findNextHeaderCheckpoint(finalHeight)", "nextCheckpoint is not advanced through findNextHeaderCheckpoint")
+	})
+
+	c.rule("C01.G7", "every hard-coded checkpoint is enforced: findNextHeaderCheckpoint returns a checkpoint only if its height is strictly above the given height, so after a checkpoint was verified nextCheckpoint moves on to the following one (and handleHeadersMsg re-arms it right after a checkpoint header)", func() {
+		c.nextCheckpointStrict()
+		fn := c.fn(fnHandleHeaders)
+		nc := c.field("neutrino", "blockManager", "nextCheckpoint")
+		next := c.method("neutrino", "blockManager", "findNextHeaderCheckpoint")
+		okArm := false
+		for _, st := range find(fn, storeToField(nc)) {
+			if valIsCallTo(next)(st.(*ssa.Store).Val) {
+				okArm = true
+			}
+		}
+		c.verdict(okArm, c.nm(fn)+" | nextCheckpoint re-armed from findNextHeaderCheckpoint", c.P.Pos(fn.Pos()), "b.nextCheckpoint = b.findNextHeaderCheckpoint(finalHeight)", "handleHeadersMsg no longer moves nextCheckpoint on after a checkpoint header")
 	})
 
 	c.rule("C01.G6", "checkpoint-mismatch recovery rolls back below the failing checkpoint: findPreviousHeaderCheckpoint adopts a checkpoint only if its height is strictly below the given height", func() {
@@ -682,4 +638,113 @@ func (c *Ctx) prevCheckpointStrict() {
 		walk(v)
 	}
 	c.guarded(fn, g, 1, "adopt checkpoints[i] as the previous checkpoint", cands, 1, gDominate)
+}
+
+// nextCheckpointStrict: findNextHeaderCheckpoint hands out a checkpoint only
+// if its height is strictly greater than the given height (a checkpoint AT
+// the given height was just verified: returning it again parks nextCheckpoint
+// there and every later checkpoint is skipped).
+func (c *Ctx) nextCheckpointStrict() {
+	fn := c.fn("(*neutrino.blockManager).findNextHeaderCheckpoint")
+	cpHeight := c.field(pChaincfg, "Checkpoint", "Height")
+	isCp := func(v ssa.Value) bool { return loadsField(cpHeight)(v) }
+	isH := func(v ssa.Value) bool { return ir.Strip(v) == ssa.Value(fn.Params[1]) }
+	g, odd := relGuard("checkpoint.Height > height", fn, isCp, isH, token.GTR)
+	if len(odd) > 0 {
+		c.fail(c.nm(fn)+" | comparison shape", c.P.Pos(fn.Pos()), "a candidate checkpoint's height is compared with the given height by "+join(odd)+": a checkpoint AT the given height must not be returned as the next one")
+		return
+	}
+	var cands, nonNil []ssa.Instruction
+	for _, in := range find(fn, isExit) {
+		v := ir.RetVal(in.(*ssa.Return), 0)
+		if !ir.IsNil(v) {
+			nonNil = append(nonNil, in)
+		}
+		seen := map[ssa.Value]bool{}
+		var walk func(v ssa.Value)
+		walk = func(v ssa.Value) {
+			if seen[v] {
+				return
+			}
+			seen[v] = true
+			switch x := v.(type) {
+			case *ssa.Phi:
+				for _, e := range x.Edges {
+					walk(e)
+				}
+			case *ssa.IndexAddr:
+				if ir.LoopHeaderOf(x.Block()) != nil {
+					cands = append(cands, x)
+				}
+			}
+		}
+		walk(v)
+	}
+	c.guarded(fn, g, 2, "adopt checkpoints[i] as the next checkpoint", cands, 1, gDominate)
+	c.guarded(fn, g, 2, "return a checkpoint", nonNil, 1, gDominate)
+}
+
+const headersLinkedDoc = "handleHeadersMsg: areHeadersConnected(msg.Headers)=true guards every store write, rollback and batch append; areHeadersConnected returns true only if no PrevBlock mismatch was seen"
+
+// headersLinked: see headersLinkedDoc.
+func (c *Ctx) headersLinked() {
+	hdrNamed := func() *types.Named { return c.P.Named("headerfs", "BlockHeader") }
+	bhsWrite := func() *types.Func { return c.method("headerfs", "BlockHeaderStore", "WriteHeaders") }
+	fn := c.fn(fnHandleHeaders)
+	ahc := c.funcObj("neutrino", "areHeadersConnected")
+	calls := find(fn, callTo(ahc))
+	roll := c.method("neutrino", "blockManager", "rollBackToHeight")
+	effects := find(fn, anyOf(appendsOf(hdrNamed()), callTo(bhsWrite()), callTo(roll)))
+	c.guarded(fn, boolIs("areHeadersConnected(msg.Headers)", calls, 0, true), 1, "batch append / WriteHeaders / rollBackToHeight", effects, 4, gDominate)
+
+	f2 := c.fn("neutrino.areHeadersConnected")
+	prevBlock := c.field(pWire, "BlockHeader", "PrevBlock")
+	for _, x := range find(f2, binops(eqOps, loadsField(prevBlock), anyVal)) {
+		c.fullRange(f2, ir.LoopHeaderOf(x.Block()), "the link-checking loop", func(v ssa.Value) bool { return v == ssa.Value(f2.Params[0]) }, 0, boolSuccess)
+	}
+	cmps := find(f2, binops(eqOps, loadsField(prevBlock), anyVal))
+	var retTrue []ssa.Instruction
+	for _, in := range find(f2, isExit) {
+		r := in.(*ssa.Return)
+		if b, ok := ir.ConstBool(ir.RetVal(r, 0)); !ok || b {
+			retTrue = append(retTrue, in)
+		}
+	}
+	c.guarded(f2, equalIs("blockHeader.PrevBlock vs lastHeader", cmps, true), 1, "return true", retTrue, 1, gFailEdge)
+	// every header of the message is linked to its predecessor: from each
+	// element of the slice the PrevBlock comparison is reached within the
+	// iteration; the only exemption is the very first header (lastHeader is
+	// still the zero hash)
+	var starts []start
+	ir.Instrs(f2, func(in ssa.Instruction) {
+		ia, ok := in.(*ssa.IndexAddr)
+		if ok && ir.Strip(ia.X) == ssa.Value(f2.Params[0]) {
+			starts = append(starts, afterInstr(c, in))
+		}
+	})
+	firstCut := ir.Cut{}
+	ir.Instrs(f2, func(in ssa.Instruction) {
+		b, ok := in.(*ssa.BinOp)
+		if !ok || (b.Op != token.EQL && b.Op != token.NEQ) || loadsField(prevBlock)(b.X) || loadsField(prevBlock)(b.Y) {
+			return
+		}
+		// comparison of two hash values neither of which is a PrevBlock:
+		// lastHeader == emptyHash (first header of the message)
+		hashT := c.P.Named(pChainhash, "Hash")
+		if hashT == nil || !types.Identical(b.X.Type(), hashT) || !types.Identical(b.Y.Type(), hashT) {
+			return
+		}
+		for _, br := range ir.EqBranches(b) {
+			firstCut[br.Edge()] = true
+		}
+	})
+	isCmp := func(in ssa.Instruction) bool {
+		for _, x := range cmps {
+			if x == in {
+				return true
+			}
+		}
+		return false
+	}
+	c.mustFollowIter(f2, "each header of the message", starts, isCmp, "blockHeader.PrevBlock != lastHeader comparison", firstCut, 1)
 }
